@@ -39,6 +39,8 @@ class Prop(common.PropertyCheck):
             yield {'k': 'big', 'n': (1 << 20) * rng.choice([1, 1, 2]) + rng.randrange(1, 5000), 'cont': rng.choice(['array', 'sample']), 'seed': rng.randrange(1 << 30)}
         orders = [['FL1', 'FL3'], ['FL3', 'FL1'], ['FL2'], ['FL1', 'FL2', 'FL3'], ['FL2', 'FL3', 'FL1'], ['FL3', 'FL1', 'FL2'], ['FL3', 'FL2', 'FL1'],
                   ['FL1', 'FL3', 'FL2'], ['FL2', 'FL1', 'FL3'], ['FL2', 'FL1']]
+        for i in range(4):
+            yield {'k': 'partial', 'seed': i, 'layout': 'unknown_rows'}
         layouts = ['same', 'swapped', 'dropped', 'reversed', 'lacking']
         for i in range(self.budget(20, 150)):
             yield {'k': 'partial', 'seed': rng.randrange(1 << 30), 'layout': layouts[(i // len(orders) + i) % len(layouts)], 'order': orders[i % len(orders)]}
@@ -191,6 +193,34 @@ class Prop(common.PropertyCheck):
         row_of = {'FL1': 1., 'FL2': 2., 'FL3': 3.}
         mef_values = [[100. * row_of[c], 700. * row_of[c], 4000. * row_of[c], 20000. * row_of[c]] for c in mef_channels]
         labels_of = lambda data, n, **kw: np.searchsorted([50., 190., 600.], np.asarray(data)[:, 0] / (1.0 if True else 1))
+        if case.get('layout') == 'unknown_rows':
+            # channels whose manufacturer values are all unknown: the calibration is refused, or those channels have no curve and the others their own
+            allc = ['FL1', 'FL2', 'FL3']
+            unknown = {0: ['FL1', 'FL2'], 1: ['FL2', 'FL3'], 2: ['FL1', 'FL3'], 3: ['FL2']}[case['seed'] % 4]
+            mv = [[(None if j % 2 else float('nan')) for j in range(4)] if c in unknown else [100. * row_of[c], 700. * row_of[c], 4000. * row_of[c], 20000. * row_of[c]]
+                  for c in allc]
+            out = {'layout': 'unknown_rows', 'mef_channels': allc, 'problems': []}
+            try:
+                np.random.seed(1)
+                tf = FlowCal.mef.get_transform_fxn(beads, mv, list(allc), clustering_fxn=labels_of, clustering_channels=['FL1'], selection_fxn=None)
+            except Exception:
+                return out          # refused as a whole
+            sample = beads[:30]
+            for c in allc:
+                x = np.asarray(sample[:, c], dtype=float)
+                try:
+                    got = np.asarray(tf(sample, [c])[:, c], dtype=float)
+                except Exception:
+                    continue        # refused
+                if c in unknown:
+                    out['problems'].append('channel %s has no known manufacturer value but was converted (values of %s unknown)' % (c, unknown))
+                else:
+                    np.random.seed(1)
+                    ref = FlowCal.mef.get_transform_fxn(beads, [mv[allc.index(c)]], [c], clustering_fxn=labels_of, clustering_channels=['FL1'],
+                                                        selection_fxn=None, full_output=True).fitting['std_crv'][0]
+                    if not np.array_equal(got, np.asarray(ref(x))):
+                        out['problems'].append('channel %s not converted with the curve of its own calibration (values of %s unknown)' % (c, unknown))
+            return out
         try:
             np.random.seed(1)
             res = FlowCal.mef.get_transform_fxn(beads, mef_values, mef_channels, clustering_fxn=labels_of, clustering_channels=['FL1'],
